@@ -228,8 +228,9 @@ func (af *AdaptationField) stuffingStart() int {
 func (af *AdaptationField) stuffingEnd() int {
 	stuffingEnd := int(af[4]) + 5
 
-	if stuffingEnd >= PacketSize {
-		return PacketSize - 1
+	// an adaptation field of length 183 ends with the last byte of the packet
+	if stuffingEnd > PacketSize {
+		return PacketSize
 	}
 
 	return stuffingEnd
